@@ -20,6 +20,10 @@
 (*  "r"  raw: every string over the byte-class alphabet up to RawLen.      *)
 (*       No expected outcome: crash / termination / tree invariants only.  *)
 (*  "f"  the configuration files shipped with maddy.                       *)
+(*  "i"  imports of files: scenarios (self-import, 2- and 3-cycles, a file *)
+(*       introducing a snippet, chains of k+1 files each nesting the next  *)
+(*       import d blocks deep) that the harness writes into an empty       *)
+(*       directory; FileExpected(sc) is the documented outcome.            *)
 (*                                                                         *)
 (* Prop(in, out) is the property C20 as a declarative predicate over one   *)
 (* row (input, observed outcome); Viol(in, out) names the false conjuncts. *)
@@ -36,6 +40,10 @@
 (*        previous one twice: 2^h nodes from O(h) lines;                   *)
 (*   "EmptyMacroEmbed"  a macro whose value list expanded to nothing       *)
 (*        referenced inside a longer argument: index out of range.         *)
+(*   "MacroCloseNesting"  a macro declaration that ends a block on its own *)
+(*        line is accepted and the block is not ended: unbounded nesting.  *)
+(*   "DeepImportTree"  imports put together a tree deeper than the nesting *)
+(*        limit; its canonical print is refused by that limit.             *)
 (***************************************************************************)
 EXTENDS Naturals, Sequences, FiniteSets, TLC, Json, SequencesExt
 
